@@ -281,4 +281,7 @@ def targets(ctx):
                       st.sampled_from([None, None, "only_read", 8, 16, 64, 4096])).map(
         lambda t: {"msgs": t[0], **({"only_read": True} if t[1] == "only_read" else ({"buffered": t[1]} if t[1] else {}))})
     return [__import__("vf.props._prog", fromlist=["target"]).target("C10", c, quick=200),
-            Target("delimited_streams_all_cuts", ev, poison=_poison_fn, strategy=strat, quick=120, thorough=1500, time_quick=80)]
+            Target("delimited_streams_all_cuts", ev, poison=_poison_fn, strategy=strat, quick=120, thorough=1500, time_quick=80),
+            # the bundled google.protobuf classes (Struct, ListValue, Value, FieldMask, Any, wrappers, descriptors ...) as top-level
+            # messages of a delimited stream: frame = varint(len(bytes)) + bytes, and it reads back alone
+            __import__("vf.props._wkt", fromlist=["target"]).target("C10")]
